@@ -483,6 +483,10 @@ namespace bluetoe {
 
                     result = attribute_access_result::success;
                 }
+                else if ( args.type == attribute_access_type::check_write )
+                {
+                    result = attribute_access_result::success;
+                }
 
                 return result;
             }
